@@ -1,35 +1,78 @@
 //! C04 generator: layered remapping fragment (plain keys, output chords, multi, XX, _, use-defsrc,
 //! layer-while-held, layer-switch, release-key, release-layer) on 1–4 layers over 2–6 mapped keys.
 use crate::cfggen::*;
-use crate::lay::{mk_line, HEv};
+use crate::lay::{self, mk_line, HEv};
 use crate::rng::Rng;
 
-fn gen_simple(r: &mut Rng, nlayers: usize, depth: u32) -> String {
+/// the key codes a chord prefix stands for, in the order the parser lists them
+fn prefix_codes(p: &str) -> Vec<u16> {
+    match p {
+        "C" => vec![code("lctl")],
+        "S" => vec![code("lsft")],
+        "A" => vec![code("lalt")],
+        "RA" => vec![code("ralt")],
+        _ => vec![code("lctl"), code("lsft")],
+    }
+}
+
+/// One action of the fragment: its configuration text, and the action tree it is meant to denote, in
+/// the token form of the harness serialiser (`ser.rs`), with nested `multi` flattened as the parser
+/// does. The second component is the generator's INTENT, independent of the parser.
+fn gen_simple(r: &mut Rng, nlayers: usize, depth: u32) -> (String, Vec<String>) {
     match r.below(if depth == 0 { 14 } else { 11 }) {
-        0..=2 => (*r.pick(&OUT_KEYS)).to_string(),
-        3 => format!("{}-{}", r.pick(&["C", "S", "A", "RA", "C-S"]), r.pick(&["q", "w", "x", "1"])),
-        4 => "XX".into(),
-        5 | 6 => "_".into(),
-        7 => "use-defsrc".into(),
-        8 => format!("(layer-while-held l{})", r.below(nlayers as u64)),
-        9 => format!("(layer-switch l{})", r.below(nlayers as u64)),
+        0..=2 => {
+            let k = *r.pick(&OUT_KEYS);
+            (k.to_string(), vec![format!("k {}", code(k))])
+        }
+        3 => {
+            let p = *r.pick(&["C", "S", "A", "RA", "C-S"]);
+            let k = *r.pick(&["q", "w", "x", "1"]);
+            let mut cs = prefix_codes(p);
+            cs.push(code(k));
+            (format!("{p}-{k}"), vec![format!("mk {} {}", cs.len(), cs.iter().map(|c| c.to_string()).collect::<Vec<_>>().join(" "))])
+        }
+        4 => ("XX".into(), vec!["n".into()]),
+        5 | 6 => ("_".into(), vec!["t".into()]),
+        7 => ("use-defsrc".into(), vec!["src".into()]),
+        8 => {
+            let l = r.below(nlayers as u64);
+            (format!("(layer-while-held l{l})"), vec![format!("l {l}")])
+        }
+        9 => {
+            let l = r.below(nlayers as u64);
+            (format!("(layer-switch l{l})"), vec![format!("dl {l}")])
+        }
         10 => {
             if r.chance(1, 2) {
-                format!("(release-key {})", r.pick(&OUT_KEYS))
+                let k = *r.pick(&OUT_KEYS);
+                (format!("(release-key {k})"), vec![format!("rk {}", code(k))])
             } else {
-                format!("(release-layer l{})", r.below(nlayers as u64))
+                let l = r.below(nlayers as u64);
+                (format!("(release-layer l{l})"), vec![format!("rl {l}")])
             }
         }
         _ => {
             let n = r.range(2, 3);
             let mut s = String::from("(multi");
+            let mut leaves: Vec<String> = vec![];
             for _ in 0..n {
                 s.push(' ');
-                s.push_str(&gen_simple(r, nlayers, depth + 1));
+                let (t, toks) = gen_simple(r, nlayers, depth + 1);
+                s.push_str(&t);
+                leaves.extend(toks);
             }
             s.push(')');
-            s
+            (s, leaves)
         }
+    }
+}
+
+/// a whole cell: a multi becomes `ma <n> leaves…`, anything else is its single token
+fn cell_tok(toks: &[String], is_multi: bool) -> String {
+    if is_multi {
+        format!("ma {} {}", toks.len(), toks.join(" "))
+    } else {
+        toks[0].clone()
     }
 }
 
@@ -44,14 +87,23 @@ pub fn gen_cfg(r: &mut Rng) -> (String, Vec<u16>) {
         s.push_str(k);
     }
     s.push_str(")\n");
+    // INTENT: what every cell of the layer table is meant to hold - written into the configuration
+    // as a comment, compared by `eval` with what the real parser built
+    let mut intent = format!(";; INTENT {nlayers}");
     for l in 0..nlayers {
         s.push_str(&format!("(deflayer l{l}"));
-        for _ in 0..nkeys {
+        for i in 0..nkeys {
             s.push(' ');
-            s.push_str(&gen_simple(r, nlayers, 0));
+            let (t, toks) = gen_simple(r, nlayers, 0);
+            intent.push_str(&format!(" | {l} {} {}", code(KEYS[i]), cell_tok(&toks, t.starts_with("(multi"))));
+            s.push_str(&t);
         }
+        // a key that is not in defsrc: blocked on every layer, or transparent on every layer
+        intent.push_str(&format!(" | {l} {} {}", code("m"), if opts.block_unmapped { "n" } else { "t" }));
         s.push_str(")\n");
     }
+    s.push_str(&intent);
+    s.push('\n');
     let mut keys: Vec<u16> = KEYS[..nkeys].iter().map(|k| code(k)).collect();
     if opts.process_unmapped || r.chance(1, 3) {
         // an unmapped key also takes part in the history
@@ -106,4 +158,76 @@ pub fn gen(tier: &str, seed: u64) -> Vec<String> {
         lines.push(mk_line("LAY", false, &cfg, &h));
     }
     lines
+}
+
+
+/// `lay::eval` plus the comparison of the layer table the real parser built with the generator's
+/// intent (when the configuration carries one): ` TBL=ok` or ` TBL=diff:<layer>.<code>:<got>!=<want>`
+pub fn eval(line: &str) -> String {
+    let out = lay::eval(line);
+    if out.starts_with("rej") || out.starts_with("crash") {
+        return out;
+    }
+    let p = lay::parse_line(line);
+    let Some(il) = p.cfg_text.lines().find(|l| l.starts_with(";; INTENT ")) else {
+        return format!("{out} TBL=ok");
+    };
+    let c = match lay::parse_cfg(&p.cfg_text) {
+        Ok(c) => c,
+        Err(_) => return out,
+    };
+    // cells of the parsed table, as the serialiser prints them: `NL <n> {<cnt> (<r> <y> <action…>)*}*`
+    let (text, _) = lay::serialise_cfg(&c, &[HEv::Press(0, code("m"))]);
+    let toks: Vec<&str> = text.split(' ').collect();
+    let mut got: std::collections::HashMap<(usize, u16), String> = Default::default();
+    if let Some(i) = toks.iter().position(|t| *t == "NL") {
+        let nl: usize = toks[i + 1].parse().unwrap_or(0);
+        let mut j = i + 2;
+        for l in 0..nl {
+            let cnt: usize = toks[j].parse().unwrap_or(0);
+            j += 1;
+            for _ in 0..cnt {
+                let r: u16 = toks[j].parse().unwrap_or(9);
+                let y: u16 = toks[j + 1].parse().unwrap_or(0);
+                let start = j + 2;
+                let mut k = start;
+                // an action ends where the next `<r> <y>` pair of this layer, the next layer count or
+                // `SRC` begins: actions of the fragment are self-delimiting, so parse by arity
+                k = action_end(&toks, k);
+                if r == 0 {
+                    got.insert((l, y), toks[start..k].join(" "));
+                }
+                j = k;
+            }
+        }
+    }
+    for cell in il[";; INTENT ".len()..].split(" | ").skip(1) {
+        let mut it = cell.splitn(3, ' ');
+        let l: usize = it.next().unwrap().parse().unwrap();
+        let y: u16 = it.next().unwrap().parse().unwrap();
+        let want = it.next().unwrap().to_string();
+        let g = got.get(&(l, y)).cloned().unwrap_or_else(|| "t".to_string());
+        if g != want {
+            return format!("{out} TBL=diff:{l}.{y}:{}!={}", g.replace(' ', "_"), want.replace(' ', "_"));
+        }
+    }
+    format!("{out} TBL=ok")
+}
+
+/// index just past the action that starts at `i` (fragment actions only)
+fn action_end(t: &[&str], i: usize) -> usize {
+    match t[i] {
+        "n" | "t" | "src" => i + 1,
+        "k" | "l" | "dl" | "rk" | "rl" => i + 2,
+        "mk" => i + 2 + t[i + 1].parse::<usize>().unwrap_or(0),
+        "ma" => {
+            let n: usize = t[i + 1].parse().unwrap_or(0);
+            let mut k = i + 2;
+            for _ in 0..n {
+                k = action_end(t, k);
+            }
+            k
+        }
+        _ => i + 1,
+    }
 }
